@@ -2,9 +2,6 @@
    implementation (used by the correspondence runs; no proofs). *)
 From GV.Model Require Export SEval Wf.
 
-Definition bs (l : list N) : string :=
-  fold_right (fun n acc => String (ascii_of_N n) acc) EmptyString l.
-
 Inductive impl_result :=
 | IOk (st : status) (rec : record)
 | IErr (e : err_kind)
